@@ -614,7 +614,8 @@ impl Compiler {
 
                 if self.last_instruction_is(OpCode::Pop) {
                     self.remove_last_instruction();
-                } else {
+                } else if !body.is_empty() {
+                    // (an empty body already pushed its NULL)
                     self.emit_opcode(OpCode::Null);
                 }
 
